@@ -638,4 +638,17 @@ def plan_C09(ctx):
     ctx.nontrivial = ctx.records
     ctx.need("generated name-addr values / lists executed on the real parsers", ctx.records, 50000)
 
-PLANS = dict(C09=plan_C09, C14=plan_C14, C18=plan_C18, selftest=selftest, C10=plan_C10, C16=plan_C16, C01=plan_C01, C02=plan_C02, C03=plan_C03, C04=plan_C04, C06=plan_C06, C07=plan_C07, C11=plan_C11, C12=plan_C12, C13=plan_C13)
+def plan_C19(ctx):
+    ctx.extra["rule"] = ("MsgSig.tla: SigHdrModel = what the property demands of the header part (ordered first occurrences of the fingerprinted "
+        "headers, Contact only for INVITE, compact bit, <= 8 entries, trunc-or-same for small arrays), checked by TLC against the "
+        "transcription of GetMsgSig (AutoSatisfiesDecl, DeclMeta, StringOK). MC_GenSig enumerates requests (method x permutation/subset of "
+        "the 8 fingerprinted lines, long/compact x fillers x value changes x later repeats x capacities x replies x cut positions); each "
+        "is executed on the real parser + GetMsgSig and compared: demanded keys, metamorphic groups (same fingerprinted content => "
+        "identical full signature incl. string classes and rendering), explicit-truncated-or-equal-to-ample, well-formed rendering.")
+    slices = ["perm", "fillers", "vals", "repeat", "caps8", "reply", "chunk", "probe", "viabr"] + ([] if ctx.quick else ["perm8", "perm8r", "caps"])
+    for sl in slices:
+        ctx.tlc("MC_GenSig", "MC_GenSig_%s.cfg" % sl, workers=8, min_records=90)
+    ctx.nontrivial = ctx.records
+    ctx.need("generated requests with signatures compared", ctx.records, 50000)
+
+PLANS = dict(C19=plan_C19, C09=plan_C09, C14=plan_C14, C18=plan_C18, selftest=selftest, C10=plan_C10, C16=plan_C16, C01=plan_C01, C02=plan_C02, C03=plan_C03, C04=plan_C04, C06=plan_C06, C07=plan_C07, C11=plan_C11, C12=plan_C12, C13=plan_C13)
